@@ -75,8 +75,9 @@ DERIVS = {
     'take(concat)': (d_take_concat, lambda l: [(l[1:] + l)[0], (l[1:] + l)[len(l)], (l[1:] + l)[1]]),
     'empty[:0]': (d_empty, lambda l: []),
     'slice[-2:]': (d_neg, lambda l: l[-2:]),
+    'head[:2]': (lambda a: a[:2], lambda l: l[:2]),
 }
-QUICK_DERIVS = ['identity', 'slice[1:]', 'slice[1:3]', 'take[2,0,-1]', 'take_fill[0,NA,2]', 'concat[2:]+[:2]', 'pickle(slice)[1:]', 'reverse[::-1]', 'empty[:0]']
+QUICK_DERIVS = ['identity', 'slice[1:]', 'slice[1:3]', 'head[:2]', 'take[2,0,-1]', 'take_fill[0,NA,2]', 'concat[2:]+[:2]', 'pickle(slice)[1:]', 'reverse[::-1]', 'empty[:0]']
 
 
 # ------------------------------------------------------------------------------------------------ canonical values
